@@ -192,6 +192,39 @@ end Perm
 section PermCausable
 open Gen.Causable
 
+/-! canonical forms of the generated aggregates (whatever spelling the source uses: `for … return false`, `.all(..)`,
+`!….any(!..)`, `filter(..).count()`, a counter loop) — the permutation argument is made on these -/
+
+theorem get_all_causes_true_canon (M : CausableDict ι δ) (s : Cells) (c : Gen.Causable.Coll ι) :
+    CausableReasoning.get_all_causes_true M s c = c.get_all_items.all (fun x => M.is_active s x) := by
+  unfold CausableReasoning.get_all_causes_true
+  first
+    | rfl
+    | (rw [Bool.eq_iff_iff]; simp [List.all_eq_true, List.any_eq_true])
+
+theorem number_active_canon (M : CausableDict ι δ) (s : Cells) (c : Gen.Causable.Coll ι) :
+    CausableReasoning.number_active M s c = (((c.get_all_items.filter (fun x => M.is_active s x)).length : Nat) : Rat) := by
+  unfold CausableReasoning.number_active
+  first
+    | rfl
+    | simp [C11Gen.foldl_count]
+    | (simp [C11Gen.foldl_count] <;> grind)
+
+theorem get_all_active_causes_canon (M : CausableDict ι δ) (s : Cells) (c : Gen.Causable.Coll ι) :
+    CausableReasoning.get_all_active_causes M s c = c.get_all_items.filter (fun x => M.is_active s x) := by
+  unfold CausableReasoning.get_all_active_causes
+  first | rfl | simp
+
+theorem get_all_inactive_causes_canon (M : CausableDict ι δ) (s : Cells) (c : Gen.Causable.Coll ι) :
+    CausableReasoning.get_all_inactive_causes M s c = c.get_all_items.filter (fun x => !M.is_active s x) := by
+  unfold CausableReasoning.get_all_inactive_causes
+  first | rfl | simp
+
+theorem percent_active_canon (M : CausableDict ι δ) (s : Cells) (c : Gen.Causable.Coll ι) :
+    CausableReasoning.percent_active M s c = CausableReasoning.number_active M s c / ((c.len : Nat) : Rat) * (100 : Rat) := by
+  unfold CausableReasoning.percent_active
+  first | rfl | simp | (simp <;> grind)
+
 /-- **causaloids, order-insensitive part** on the generated definitions (`number_active`, `percent_active`,
 `get_all_causes_true`, the two filters as multisets) for any member type and dictionary -/
 theorem c12gen_perm_causable (M : CausableDict ι δ) (s : Cells) (c₁ c₂ : Container ι) (w₁ : WellFormed c₁) (w₂ : WellFormed c₂)
@@ -205,17 +238,15 @@ theorem c12gen_perm_causable (M : CausableDict ι δ) (s : Cells) (c₁ c₂ : C
   have l₁ := (C12.c12_len_is_number_of_items c₁ w₁).1
   have l₂ := (C12.c12_len_is_number_of_items c₂ w₂).1
   have hn : CausableReasoning.number_active M s (causableCollOf c₁) = CausableReasoning.number_active M s (causableCollOf c₂) := by
-    simp only [CausableReasoning.number_active, causableCollOf_eq, (h.filter _).length_eq]
+    simp only [number_active_canon, causableCollOf_eq, (h.filter _).length_eq]
   refine ⟨hn, ?_, ?_, ?_, ?_⟩
-  · simp only [CausableReasoning.percent_active, hn]
+  · simp only [percent_active_canon, hn]
     simp only [causableCollOf_eq, l₁, l₂, h.length_eq]
-  · simp only [CausableReasoning.get_all_causes_true, causableCollOf_eq]
-    have : ((items c₁).any fun cause => !M.is_active s cause) = ((items c₂).any fun cause => !M.is_active s cause) := by
-      rw [Bool.eq_iff_iff]; simp only [List.any_eq_true]
-      exact ⟨fun ⟨x, hx, p⟩ => ⟨x, h.mem_iff.1 hx, p⟩, fun ⟨x, hx, p⟩ => ⟨x, h.mem_iff.2 hx, p⟩⟩
-    rw [this]
-  · simp only [CausableReasoning.get_all_active_causes, causableCollOf_eq]; exact h.filter _
-  · simp only [CausableReasoning.get_all_inactive_causes, causableCollOf_eq]; exact h.filter _
+  · simp only [get_all_causes_true_canon, causableCollOf_eq]
+    rw [Bool.eq_iff_iff]; simp only [List.all_eq_true]
+    exact ⟨fun H x hx => H x (h.mem_iff.2 hx), fun H x hx => H x (h.mem_iff.1 hx)⟩
+  · simp only [get_all_active_causes_canon, causableCollOf_eq]; exact h.filter _
+  · simp only [get_all_inactive_causes_canon, causableCollOf_eq]; exact h.filter _
 
 end PermCausable
 
